@@ -135,7 +135,11 @@ type Link struct {
 // can hold.
 type traceDomain struct {
 	maxSpans int
-	zipkin   bool // times >= 1 s after the epoch and well below 2262, End >= Start
+	// wide > 0: 1 batch in wide has 8..wideSpans spans; in 1 batch in 25 every span has, per list, a 1 in 5 chance of
+	// many (up to 160) attributes / events / links (log-uniform sizes).
+	wide      int
+	wideSpans int
+	zipkin    bool // times >= 1 s after the epoch and well below 2262, End >= Start
 }
 
 func genTimeFor(d traceDomain) *rapid.Generator[int64] {
@@ -170,6 +174,15 @@ func genTraceCase(d traceDomain) func(*rapid.T) TraceCase {
 			n = rapid.IntRange(7, d.maxSpans).Draw(t, "large")
 		default:
 			n = rapid.IntRange(2, 6).Draw(t, "small")
+		}
+		if d.wide > 0 {
+			n = genSize(t, "batch", []int{n}, d.wide, 8, d.wideSpans)
+		}
+		// 1 batch in 25 is a "long lists" batch: each of its spans has, per
+		// list, a 1 in 5 chance of a log-uniformly long list (up to 160)
+		listWide := 0
+		if d.wide > 0 && n <= 30 && rapid.IntRange(0, 24).Draw(t, "longlists") == 24 {
+			listWide = 5
 		}
 		tm := genTimeFor(d)
 		attrs := vk.GenKVs(kvOpts(attrKeys), 5, 0, 1)
@@ -223,7 +236,10 @@ func genTraceCase(d traceDomain) func(*rapid.T) TraceCase {
 			if s.Status != 0 || rapid.IntRange(0, 3).Draw(t, "msgwithoutstatus") == 0 {
 				s.StatusMsg = genText(4).Draw(t, "statusmsg")
 			}
-			ne := rapid.SampledFrom([]int{0, 0, 1, 2, 3}).Draw(t, "nevents")
+			if k := genSize(t, "nattrs", []int{0}, listWide, 6, 160); k > 0 {
+				s.Attrs = genKVsN(t, kvOpts(attrKeys), k, "wideattr")
+			}
+			ne := genSize(t, "nevents", []int{0, 0, 1, 2, 3}, listWide, 4, 160)
 			for j := 0; j < ne; j++ {
 				s.Events = append(s.Events, Event{
 					Name:    genText(3).Draw(t, "ename"),
@@ -232,7 +248,7 @@ func genTraceCase(d traceDomain) func(*rapid.T) TraceCase {
 					Dropped: genCount().Draw(t, "edropped"),
 				})
 			}
-			nl := rapid.SampledFrom([]int{0, 0, 1, 2, 3}).Draw(t, "nlinks")
+			nl := genSize(t, "nlinks", []int{0, 0, 1, 2, 3}, listWide, 4, 160)
 			for j := 0; j < nl; j++ {
 				s.Links = append(s.Links, Link{
 					SC:      genSC(t, "", earlier, 1),
@@ -525,7 +541,20 @@ func traceInfo(c TraceCase) vk.Info {
 	for _, s := range c.Spans {
 		sids[s.SpanID] = true
 	}
+	var emptyKeySpan, emptyKeyEvent, emptyKeyLink, dupKey bool
+	var maxAttrs, maxEvents, maxLinks int
 	for _, s := range c.Spans {
+		maxAttrs, maxEvents, maxLinks = max(maxAttrs, len(s.Attrs)), max(maxEvents, len(s.Events)), max(maxLinks, len(s.Links))
+		emptyKeySpan = emptyKeySpan || hasEmptyKey(s.Attrs)
+		dupKey = dupKey || hasDupKey(s.Attrs)
+		for _, e := range s.Events {
+			emptyKeyEvent = emptyKeyEvent || hasEmptyKey(e.Attrs)
+			dupKey = dupKey || hasDupKey(e.Attrs)
+		}
+		for _, l := range s.Links {
+			emptyKeyLink = emptyKeyLink || hasEmptyKey(l.Attrs)
+			dupKey = dupKey || hasDupKey(l.Attrs)
+		}
 		resUsed[s.Res] = true
 		scopeUsed[fmt.Sprint(c.Scopes[s.Scope])] = true
 		if scopeRes[s.Scope] == nil {
@@ -604,6 +633,12 @@ func traceInfo(c TraceCase) vk.Info {
 	info.ClassIf(len(c.Spans) == 0, "empty_batch")
 	info.ClassIf(len(c.Spans) == 1, "one_span")
 	info.ClassIf(len(c.Spans) >= 7, "batch>=7")
+	info.ClassIf(len(c.Spans) > 30, "batch>30")
+	info.ClassIf(len(c.Spans) >= 512, "batch>=512")
+	info.ClassIf(maxAttrs > 128, "span_attrs>128")
+	info.ClassIf(maxEvents > 128, "span_events>128")
+	info.ClassIf(maxLinks > 128, "span_links>128")
+	info.ClassIf(maxAttrs > 8 || maxEvents > 8 || maxLinks > 8, "span_list>8")
 	info.ClassIf(len(resUsed) >= 2, "resources>=2")
 	info.ClassIf(len(scopeUsed) >= 2, "scopes>=2")
 	info.ClassIf(len(resUsed) >= 2 && len(scopeUsed) >= 2, "resources>=2_and_scopes>=2")
@@ -630,6 +665,10 @@ func traceInfo(c TraceCase) vk.Info {
 	info.ClassIf(events, "events")
 	info.ClassIf(links, "links")
 	info.ClassIf(linkRemote && linkLocal, "links_remote_and_local")
+	info.ClassIf(emptyKeySpan, "empty_attr_key:span")
+	info.ClassIf(emptyKeyEvent, "empty_attr_key:event")
+	info.ClassIf(emptyKeyLink, "empty_attr_key:link")
+	info.ClassIf(dupKey, "duplicate_attr_key_in_one_list")
 	return info
 }
 
@@ -719,7 +758,7 @@ func runTraceWire(c TraceCase) ([]vk.Violation, vk.Info) {
 	return vs, info
 }
 
-const traceRule = "batches of 0..30 span snapshots spread over 1..4 resources (distinct by attributes; nil/empty included) and 1..4 scopes (empty, shared between resources, siblings differing in one component), " +
+const traceRule = "batches of 0..30 span snapshots (OTLP sub-checks: 1 batch in 120 / 60 log-uniformly larger, up to 600 fast path / 300 network; in 1 of 25 batches of <= 30 spans each span has per list a 1 in 5 chance of up to 160 attributes / events / links), attribute keys from a short alphabet with duplicates and the empty key, spread over 1..4 resources (distinct by attributes; nil/empty included) and 1..4 scopes (empty, shared between resources, siblings differing in one component), " +
 	"all kinds / status codes, parents and link targets as arbitrary span contexts (both IDs, span ID only, trace ID only, none; each with/without sampled flag, remote mark, tracestate), events, timestamps incl. epoch, pre-epoch and 2262, dropped counts incl. > MaxUint32 and negative; " +
 	"non-trivial = the spans of the batch use >= 2 resources or >= 2 distinct scopes, or carry >= 1 boundary value (time <= epoch or in the last second of int64 nanos, count < 0 or >= MaxUint32-1)"
 
@@ -728,7 +767,7 @@ func TestTraceTransform(t *testing.T) {
 		Property: "C13", Check: "otlp_traces",
 		Rule:  "fast path (recording otlptrace.Client): " + traceRule,
 		Quick: 8000, Thorough: 100000,
-		Gen: genTraceCase(traceDomain{maxSpans: 30}), Run: runTraceFast,
+		Gen: genTraceCase(traceDomain{maxSpans: 30, wide: 120, wideSpans: 600}), Run: runTraceFast,
 	})
 }
 
@@ -737,6 +776,6 @@ func TestTraceWire(t *testing.T) {
 		Property: "C13", Check: "otlp_traces_grpc_http",
 		Rule:  "otlptracegrpc and otlptracehttp (gzip on/off) against loopback collectors, judged separately and against each other: " + traceRule,
 		Quick: 1000, Thorough: 12000,
-		Gen: genTraceCase(traceDomain{maxSpans: 16}), Run: runTraceWire,
+		Gen: genTraceCase(traceDomain{maxSpans: 16, wide: 60, wideSpans: 300}), Run: runTraceWire,
 	})
 }
